@@ -1,3 +1,4 @@
 verus! {
 // `usize` is 64 bits wide (target assumption; Verus otherwise treats it as 32-or-64)
 global size_of usize == 8;
+//@include prelude/std_extra.rs
